@@ -89,11 +89,12 @@ type task struct {
 	ctx       *hostapi.SimContext
 	soloTrace []string
 	// scheduler-side
-	done   bool
-	pend   pendingOp
-	expect []string // what the channel model says this task received / observed, in order
-	fired  bool
-	opts   lua.Options
+	done    bool
+	pend    pendingOp
+	expect  []string // what the channel model says this task received / observed, in order
+	fired   bool
+	opts    lua.Options
+	faultAt int64 // compute tasks: a one-shot error raised at this instruction (0: none), in the solo run as well
 }
 
 type sched struct {
@@ -149,6 +150,21 @@ func (tk *task) run(chGlobals map[string]lua.LValue, shared map[string]*lua.Func
 			tk.trace = append(tk.trace, h.Trace...)
 			tk.trace = append(tk.trace, fmt.Sprintf("--- state %d closed", i))
 			h.L.Close()
+			// a sandbox: only the base and string libraries are opened (no package library), run, close
+			tk.budget = tk.mb.park(pendingOp{kind: parkStep})
+			S := lua.NewState(lua.Options{SkipOpenLibs: true})
+			for _, pair := range []struct {
+				n string
+				f lua.LGFunction
+			}{{lua.BaseLibName, lua.OpenBase}, {lua.StringLibName, lua.OpenString}} {
+				S.Push(S.NewFunction(pair.f))
+				S.Push(lua.LString(pair.n))
+				S.Call(1, 0)
+			}
+			if err := S.DoString("assert(type(string.rep) == \"function\" and package == nil)"); err != nil {
+				tk.err = err.Error()
+			}
+			S.Close()
 			// a full default state (all libraries opened through the package-level tables), compile, run, close
 			tk.budget = tk.mb.park(pendingOp{kind: parkStep})
 			F := lua.NewState()
@@ -192,7 +208,11 @@ func (tk *task) run(chGlobals map[string]lua.LValue, shared map[string]*lua.Func
 }
 
 func (tk *task) newHost(chGlobals map[string]lua.LValue, shared map[string]*lua.FunctionProto) *hostapi.Host {
-	h := hostapi.NewHost(hostapi.Options{LuaOptions: tk.opts, MaxSteps: 400000})
+	ho := hostapi.Options{LuaOptions: tk.opts, MaxSteps: 400000}
+	if tk.faultAt > 0 {
+		ho.Kind, ho.At = hostapi.VRaise, tk.faultAt
+	}
+	h := hostapi.NewHost(ho)
 	L := h.L
 	if tk.ctx != nil {
 		h.Ctx = tk.ctx
@@ -252,7 +272,12 @@ func trimS(s string, n int) string {
 const producerSrc = `local C, D, me, k = C, D, ME, K
 for i = 1, k do
   local v = me .. "." .. i
-  if PAYLOAD == "table" then v = {tag = v, 1, 2} elseif PAYLOAD == "number" then v = TID * 1000 + i end
+  if PAYLOAD == "table" then v = {tag = v, n = 4, 1, 2}
+  elseif PAYLOAD == "sharedtable" then
+    -- one table, sent again and again: several states hold it at the same time and only read it
+    SH = SH or {tag = me .. ".sh", n = 13, 1, 2, k1 = 1, k2 = 2, k3 = 3, k4 = 4, k5 = 5, k6 = 6, k7 = 7, k8 = 8, k9 = 9}
+    v = SH
+  elseif PAYLOAD == "number" then v = TID * 1000 + i end
   if VIASELECT then
     local idx, rv, ok = channel.select({"<-|", C, v, function(sent) emit("handler", type(sent) == type(v)) end})
     emit("select-sent", idx)
@@ -271,7 +296,11 @@ while true do
   local ok, v = C:receive()
   if not ok then emit("closed", v) break end
   n = n + 1
-  if type(v) == "table" then emit("got", v.tag, #v) else emit("got", v) end
+  if type(v) == "table" then
+    local c = 0 for k2, x in pairs(v) do c = c + 1 end
+    if c ~= v.n then emit("handler-mismatch", c, v.n) end
+    emit("got", v.tag, #v)
+  else emit("got", v) end
 end
 emit("consumer done", n)
 `
@@ -297,7 +326,11 @@ while true do
   if idx then
     if not ok then emit("closed", v) break end
     n = n + 1
-    if type(v) == "table" then emit("got", v.tag, #v) else emit("got", v) end
+    if type(v) == "table" then
+    local c = 0 for k2, x in pairs(v) do c = c + 1 end
+    if c ~= v.n then emit("handler-mismatch", c, v.n) end
+    emit("got", v.tag, #v)
+  else emit("got", v) end
   end
 end
 emit("consumer done", n)
@@ -321,7 +354,11 @@ while open1 or open2 do
     emit("sel-closed", w)
   else
     n = n + 1
-    if type(v) == "table" then emit("sel-got", w, v.tag) else emit("sel-got", w, v) end
+    if type(v) == "table" then
+      local c = 0 for k2, x in pairs(v) do c = c + 1 end
+      if c ~= v.n then emit("handler-mismatch", c, v.n) end
+      emit("sel-got", w, v.tag)
+    else emit("sel-got", w, v) end
   end
 end
 emit("select consumer done", n)
@@ -491,7 +528,13 @@ func (e *Engine) Run(t *core.Tape, cfg *core.Config, st *core.Stats) *core.Viola
 			st.Probe("shared_prototype_task")
 		}
 		globals[tk] = map[string]lua.LValue{}
-		desc = append(desc, fmt.Sprintf("task %d %s (shared proto: %v)", tk.id, tk.name, tk.proto != nil))
+		if t.Choose(2) == 0 {
+			// one task in two runs into an injected error at a drawn instruction (alone and concurrently): the
+			// error paths (unwinding, tracebacks) run next to the other tasks too
+			tk.faultAt = 1 + int64(t.Choose(1500))
+			st.Probe("compute_task_with_injected_error")
+		}
+		desc = append(desc, fmt.Sprintf("task %d %s (shared proto: %v, injected error at instruction %d)", tk.id, tk.name, tk.proto != nil, tk.faultAt))
 	}
 	if t.Choose(3) == 0 {
 		tk := newTask(kLifecycle, "lifecycle", lifecycleSrc)
@@ -521,7 +564,7 @@ func (e *Engine) Run(t *core.Tape, cfg *core.Config, st *core.Stats) *core.Viola
 		if useSelect {
 			C2 = addChan(t.Choose(3))
 		}
-		payload := []string{"string", "number", "table"}[t.Choose(3)]
+		payload := []string{"string", "number", "table", "sharedtable"}[t.Choose(4)]
 		for i := 0; i < np; i++ {
 			tk := newTask(kProducer, fmt.Sprintf("producer%d", i), producerSrc)
 			target := C
@@ -543,6 +586,8 @@ func (e *Engine) Run(t *core.Tape, cfg *core.Config, st *core.Stats) *core.Viola
 					tk.sendVals = append(tk.sendVals, fmt.Sprintf("s:%s.%d", tk.name, j))
 				case "number":
 					tk.sendVals = append(tk.sendVals, fmt.Sprintf("n:%v", float64(tk.id*1000+j)))
+				case "sharedtable":
+					tk.sendVals = append(tk.sendVals, fmt.Sprintf("t:%s.sh", tk.name))
 				default:
 					tk.sendVals = append(tk.sendVals, fmt.Sprintf("t:%s.%d", tk.name, j))
 				}
@@ -625,12 +670,21 @@ func (e *Engine) Run(t *core.Tape, cfg *core.Config, st *core.Stats) *core.Viola
 	// userdata for the refusal probe must belong to that task's state: created by the task itself
 	// (a table with a metatable etc. are created in Lua); UD is a plain userdata made by the host.
 
+	// the shared prototype as compiled, before anything has executed it (the solo runs included)
+	protoHash := ""
+	if sharedProto != nil {
+		protoHash = deepHash(sharedProto)
+	}
 	// --- solo runs of the compute tasks (reference traces) ---
 	for _, tk := range sc.tasks {
 		if tk.kind != kCompute {
 			continue
 		}
-		h := hostapi.NewHost(hostapi.Options{LuaOptions: tk.opts, MaxSteps: 400000})
+		ho := hostapi.Options{LuaOptions: tk.opts, MaxSteps: 400000}
+		if tk.faultAt > 0 {
+			ho.Kind, ho.At = hostapi.VRaise, tk.faultAt
+		}
+		h := hostapi.NewHost(ho)
 		for _, f := range []lua.LGFunction{lua.OpenChannel, lua.OpenMath} {
 			h.L.Push(h.L.NewFunction(f))
 			h.L.Call(0, 0)
@@ -646,10 +700,6 @@ func (e *Engine) Run(t *core.Tape, cfg *core.Config, st *core.Stats) *core.Viola
 		}
 		tk.soloTrace = append(h.Trace, "TOP:"+out.TopError)
 		st.Steps += h.Steps
-	}
-	protoHash := ""
-	if sharedProto != nil {
-		protoHash = deepHash(sharedProto)
 	}
 
 	// --- start the goroutines; each parks at once ---
